@@ -54,6 +54,7 @@ type Walker struct {
 	Undecided []string
 	memo      map[string]bool
 	inSplit   map[*ssa.Function]bool
+	inRetSplit map[*ssa.Function]bool
 	entry     string
 	Visited   map[*ssa.Function]bool
 	Paths     int
@@ -67,10 +68,11 @@ type Walker struct {
 	AutoSplit bool
 	splits    []string
 	entryFn   *ssa.Function
+	retChoice map[ssa.Instruction]*ssa.Return
 }
 
 func (a *Analyzer) NewWalker(on func(e *Effect)) *Walker {
-	return &Walker{A: a, OnEffect: on, MaxDepth: 24, memo: map[string]bool{}, inSplit: map[*ssa.Function]bool{}, Visited: map[*ssa.Function]bool{}, NoDescend: map[string]bool{}}
+	return &Walker{A: a, OnEffect: on, MaxDepth: 24, memo: map[string]bool{}, inSplit: map[*ssa.Function]bool{}, inRetSplit: map[*ssa.Function]bool{}, Visited: map[*ssa.Function]bool{}, NoDescend: map[string]bool{}}
 }
 
 func envKey(env map[ssa.Value]*Term, fn *ssa.Function) string {
@@ -236,13 +238,36 @@ func (w *Walker) visit(fn *ssa.Function, env map[ssa.Value]*Term, init Facts, pa
 			return
 		}
 	}
-	fl := w.A.NewFlow(c, init, w.Assume...)
+	// return-site split: a call to an effectful helper with several successful outcomes is explored once per outcome
+	if w.AutoSplit && !w.inRetSplit[fn] {
+		if call, rets := w.splitCall(fn); call != nil {
+			if os.Getenv("LH_DEBUG_SPLITS") != "" {
+				fmt.Fprintf(os.Stderr, "return-site split in %s at %s: %d outcomes\n", funcID(fn), w.A.P.InstrPos(call), len(rets))
+			}
+			w.inRetSplit[fn] = true
+			for i, r := range rets {
+				if w.retChoice == nil {
+					w.retChoice = map[ssa.Instruction]*ssa.Return{}
+				}
+				w.retChoice[call] = r
+				w.splits = append(w.splits, fmtf("ret#%d@%s", i, w.A.P.InstrPos(call)))
+				delete(w.memo, mk)
+				onPath[fn] = false
+				w.visit(fn, env, init, path, onPath)
+				w.splits = w.splits[:len(w.splits)-1]
+			}
+			delete(w.retChoice, call)
+			delete(w.inRetSplit, fn)
+			return
+		}
+	}
+	fl := w.A.NewFlowRC(c, init, w.retChoice, w.Assume...)
 	if len(w.Assume) > 0 || len(w.splits) > 0 {
 		// second pass: phi nodes resolved over the feasible edges only (path-sensitive under the case split)
 		if dead := fl.DeadEdges(); len(dead) > 0 {
 			c = w.A.NewFCtx(fn, env, 0)
 			c.DeadEdge = dead
-			fl = w.A.NewFlow(c, init, w.Assume...)
+			fl = w.A.NewFlowRC(c, init, w.retChoice, w.Assume...)
 		}
 	}
 	if fl.Diverged {
@@ -258,6 +283,9 @@ func (w *Walker) visit(fn *ssa.Function, env map[ssa.Value]*Term, init Facts, pa
 	for _, b := range blocks {
 		facts := fl.In[b].Clone()
 		for _, in := range b.Instrs {
+			if isDead(facts) {
+				break
+			}
 			w.instr(in, c, fl, facts, path, onPath)
 			fl.transfer(in, facts)
 		}
@@ -464,4 +492,70 @@ func diamondWithPhi(b *ssa.BasicBlock) bool {
 
 func isSelectIndex(t *Term) bool {
 	return t.Op == "ext" && t.Name == "0" && len(t.Args) == 1 && t.Args[0].Op == "select"
+}
+
+
+// splitCall: the first call in fn to a static library callee that is effectful, not inlinable, returns a verdict
+// (error / ok) together with other values, and has at least two successful return sites whose values differ.
+// Returns the call and the outcomes to explore: each successful return site, then nil for "a failing return".
+func (w *Walker) splitCall(fn *ssa.Function) (ssa.Instruction, []*ssa.Return) {
+	a := w.A
+	for _, b := range fn.Blocks {
+		for _, in := range b.Instrs {
+			call, ok := in.(*ssa.Call)
+			if !ok {
+				continue
+			}
+			g := call.Call.StaticCallee()
+			if g == nil || g.Blocks == nil || !inLibraryScope(funcPkgPath(g)) || isSpecTypesPkg(funcPkgPath(g)) {
+				continue
+			}
+			if a.effectFree[g] || a.isInlinable(g) || g.Signature.Results().Len() < 2 {
+				continue
+			}
+			if g.Object() != nil && g.Object().Exported() {
+				continue // anchors keep their summaries
+			}
+			if call.Referrers() == nil || len(*call.Referrers()) == 0 {
+				continue
+			}
+			sm := a.Summary(g)
+			if sm == nil || sm.resIdx < 0 {
+				continue
+			}
+			gc := a.NewFCtx(g, placeholderEnv(a, g), 0)
+			var succ []*ssa.Return
+			vals := map[string]bool{}
+			for _, gb := range g.Blocks {
+				ret, ok := gb.Instrs[len(gb.Instrs)-1].(*ssa.Return)
+				if !ok || sm.resIdx >= len(ret.Results) {
+					continue
+				}
+				rt := gc.Term(ret.Results[sm.resIdx])
+				failing := false
+				switch sm.resKind {
+				case "error":
+					failing = isErrCtor(rt) || (rt.Key() != tNil.Key() && rt.Op != "phi")
+				case "bool":
+					failing = rt.Key() == tFalse.Key()
+				}
+				if failing {
+					continue
+				}
+				succ = append(succ, ret)
+				var ks []string
+				for i, r := range ret.Results {
+					if i != sm.resIdx {
+						ks = append(ks, gc.Term(r).Key())
+					}
+				}
+				vals[strings.Join(ks, "|")] = true
+			}
+			if len(succ) < 2 || len(vals) < 2 || len(succ) > 4 {
+				continue
+			}
+			return in, append(succ, nil)
+		}
+	}
+	return nil, nil
 }
